@@ -55,6 +55,10 @@ static void op_c15_scrub(Exec& x, const Json& op, int)
 	// the tool keeps check times with 8 second granularity and truncates times in the future to "now" when it saves:
 	// compare times under that normalisation
 	auto norm = [&](Content& c, int64_t now_) { for (auto& i : c.info) if (i.present) i.time = (uint32_t)std::min<int64_t>(i.time, now_) & ~7u; };
+	// the plan itself works on the times as stored: a check time in the future (the clock stepped back) is not "older than"
+	// anything until the clock catches up
+	std::vector<uint32_t> stored_time(c0.blockmax, 0);
+	for (uint32_t p = 0; p < c0.blockmax && p < c0.info.size(); ++p) stored_time[p] = c0.info[p].time & ~7u; // (kept with 8 second granularity once loaded)
 	norm(c0, x.sb.now_s);
 	std::string plan = op.str("plan"); // "", "full", "new", "bad", or a number
 	int64_t older = op.num("older", -1);
@@ -116,15 +120,15 @@ static void op_c15_scrub(Exec& x, const Json& op, int)
 		if (VN.size() > quota) x.violation("C15", "percentage-plan-over-quota", cl + strf(": %zu healthy stripes verified, quota %llu of %u", VN.size(), (unsigned long long)quota, n));
 		uint32_t newest_verified = 0;
 		for (auto p : VN) {
-			if ((int64_t)c0.info[p].time > limit) x.violation("C15", "percentage-plan-too-young", cl + strf(": stripe %u checked at %u is younger than the age limit %lld", p, c0.info[p].time, (long long)limit));
-			newest_verified = std::max(newest_verified, c0.info[p].time);
+			if ((int64_t)stored_time[p] > limit) x.violation("C15", "percentage-plan-too-young", cl + strf(": stripe %u checked at %u is younger than the age limit %lld", p, stored_time[p], (long long)limit));
+			newest_verified = std::max(newest_verified, stored_time[p]);
 		}
 		unsigned eligible = 0;
 		for (uint32_t p = 0; p < n; ++p) {
 			if (!c0.info[p].present || is_bad0(p)) continue;
-			if ((int64_t)c0.info[p].time <= limit) ++eligible;
-			if (!V.count(p) && !VN.empty() && c0.info[p].time < newest_verified && (int64_t)c0.info[p].time <= limit)
-				x.violation("C15", "percentage-plan-not-oldest-first", cl + strf(": stripe %u (checked at %u) was skipped while a younger one (checked at %u) was verified", p, c0.info[p].time, newest_verified));
+			if ((int64_t)stored_time[p] <= limit) ++eligible;
+			if (!V.count(p) && !VN.empty() && stored_time[p] < newest_verified && (int64_t)stored_time[p] <= limit)
+				x.violation("C15", "percentage-plan-not-oldest-first", cl + strf(": stripe %u (checked at %u) was skipped while a younger one (checked at %u) was verified", p, stored_time[p], newest_verified));
 		}
 		unsigned nbad = 0;
 		for (uint32_t p = 0; p < n; ++p) if (is_bad0(p)) ++nbad;
